@@ -35,7 +35,11 @@ P = {'id': 'C10',
               'strvec_long_string_refuted',
               'fixedlen_refines_list',
               'fixedlen_get_pushes',
-              'fixedlen_push_refused_iff'],
+              'fixedlen_push_refused_iff',
+              'fastvec_copy_refines_list',
+              'fastvec_bulk_equals_scalar',
+              'fastvec_copy_eq_decides',
+              'fastvec_copy_from_refuted'],
  'consts': True,
  'trusted': ['modelled (M+S), memory = map slot -> option element (None = uninitialised / moved out; reading, moving out or dropping a None slot is the '
              'outcome UB): src/containers/specialized/circular_queue.rs AutoGrowCircularQueue (ensure_power_of_two, with_capacity, reserve, grow_to incl. '
